@@ -1375,6 +1375,136 @@ class C17(SimpleSpec):
         return res
 
 
+
+C15_FINDINGS = {
+    "F-C15-table-cycle": ("implies itself", "table-cycle"),
+    "F-C15-table-shadow": ("Cannot specify multiple criteria", "table-shadow"),
+    "F-C15-too-many": ("was not Enough For Everyone", "many-criteria"),
+    "F-C15-peer-table-cycle": ("implies itself", "peer-table-cycle"),
+    "F-C15-peer-table-shadow": ("Cannot specify multiple criteria", "peer-table-shadow"),
+}
+
+
+def classify_panic(case, detail):
+    """a known finding is identified by the panic site (CriteriaMapper::new) AND the table
+    that carries the defect; the local table takes precedence (it is built first)"""
+    kinds = [f["kind"] for f in case.get("faults", [])]
+    for fid in ("F-C15-table-cycle", "F-C15-table-shadow", "F-C15-too-many", "F-C15-peer-table-cycle", "F-C15-peer-table-shadow"):
+        msg, fault = C15_FINDINGS[fid]
+        if msg in detail and "src/criteria.rs" in detail and fault in kinds:
+            if fid == "F-C15-table-cycle" and "loop-a" not in detail and "loop-b" not in detail:
+                continue
+            if fid == "F-C15-peer-table-cycle" and "pl-a" not in detail and "pl-b" not in detail:
+                continue
+            return fid
+    return None
+
+
+class C15(SimpleSpec):
+    pid = "C15"
+    model_imports = ["Base", "Extracted", "Criteria", "Validate"]
+    coq_files = ["Properties/C15.v"]
+    theorems = ["C15_undefined_reference_refused", "C15_every_indexed_site_is_checked", "C15_validated_store_does_not_index_unknown",
+                "C15_no_crash_partial", "C15_refuted_self_implication", "C15_refuted_cycle", "C15_refuted_builtin_redefined",
+                "C15_refuted_too_many_criteria", "C15_wildcard_end_cap"]
+    level_text = ("Theorems about the model of Store::validate's criteria checks and of every place a criteria name is indexed into the "
+                  "mapper: a reference to an undefined criterion at any checked site is refused; every site that is indexed on the way "
+                  "to a verdict (locked and unlocked) is checked — the list of checked sites is re-read from Store::validate by the "
+                  "translator on every run, so removing a loop breaks the proof —; hence a validated store never reaches an index panic; "
+                  "own wildcard audits ending after the 12-month cap are refused. PARTIAL: C15_no_crash holds only for well-formed "
+                  "criteria tables; built-in redefinition, implication cycles and more than 64 criteria (local or peer tables) panic in "
+                  "CriteriaMapper::new and are not checked at load: C15_refuted_* witnesses, known findings F-C15-*, replayed every "
+                  "run. Text-level faults (truncation, wrong types, unknown fields) are below the model (toml/serde) and only exercised.")
+    level_note = ("Three crash sites of the unchanged tree (unknown criteria in trusted entries, criteria-map values, locked imports.lock) "
+                  "were repaired by a `fix:` commit and are now part of the proved statement. Peer files' own tables are outside the model.")
+    design_ref = "DESIGN.md §4 C15"
+    rule = ("well-formed generated stores with peers, subjected to 0-3 structural edits: a dangling criteria reference at each of the 11 "
+            "reference sites, deleting a referenced definition, implication self-loop / 2-cycle, a criterion named like a built-in, "
+            "61-70 extra criteria, a wildcard audit ending around the 12-month cap, peer files with cyclic / shadowing tables or unknown "
+            "criteria, and text-level faults (truncation, unknown field, wrong type, junk peer entries); locked and unlocked; "
+            "non-trivial = at least one fault injected")
+    projection_doc = "outcome class: refused (criteria / end-date diagnostics) | panics | proceeds to a verdict"
+    assumptions = ["mock network for peers", "today = 2023-01-01"]
+    quick_n = 300
+
+    def model_modules_paths(self):
+        return ["Validate"]
+
+    def gen_cases(self, rng, n):
+        return [gen.gen_validate_case(rng, f"v{i}") for i in range(n)]
+
+    def findings(self):
+        out = []
+        for fid in C15_FINDINGS:
+            out.append((fid, corpus_case("C15", fid), lambda o: o.get("obs") == "(outcome panics)"))
+        return out
+
+    def model_expr(self, o):
+        mi = o["model_input"]
+        b = lambda v: "true" if v else "false"  # noqa
+        return (f"match load_outcome {b(mi['locked'])} {b(mi['shadows'])} {coq(mi['table'])} {coq(mi['max_end'])} {coq(mi['ends'])} "
+                f"{coq(mi['refs'])} with Refused => \"refused\" | Panics => \"panics\" | Proceeds => \"proceeds\" end")
+
+    def canon(self, text):
+        if text.startswith("(outcome"):
+            parts = text[1:-1].split()
+            kind = parts[1]
+            if kind == "refused":
+                kinds = parts[2:]
+                if not ("InvalidCriteria" in kinds or "BadWildcardEndDate" in kinds):
+                    return "refused-other"
+            return kind
+        return text
+
+    def project(self, c):
+        return c
+
+    def run(self, rng, tier, work, model_ok=True, ncases=None, replay=None):
+        res = super().run(rng, tier, work, model_ok, ncases, replay)
+        # refusals for reasons outside the model (TOML parse, lock freshness, formatting, peer
+        # diagnostics) and panics caused by a PEER's table are not predictions of the model
+        keep = []
+        for m in res["mismatches"]:
+            if m.get("why") == "observation differs":
+                impl = json.loads(m["impl"])
+                faults = [f["kind"] for f in m["case"].get("faults", [])]
+                if impl == "refused-other":
+                    continue
+                if impl == "panics" and any(k.startswith("peer-table") for k in faults):
+                    continue
+            keep.append(m)
+        res["mismatches"] = keep
+        return res
+
+    def nontrivial(self, case, o, c):
+        return bool(case.get("faults"))
+
+    def tag(self, case, o, c):
+        return c
+
+    def describe(self, case, o):
+        return {"id": case["id"], "mode": case.get("mode"), "faults": case.get("faults"), "observation": o.get("obs"),
+                "audits": case["store"]["audits"][:300]}
+
+    def oracle(self, case, o, c):
+        out = []
+        detail = o.get("detail", "") or o.get("panic", "")
+        faults = case.get("faults", [])
+        if c == "panics":
+            fid = classify_panic(case, detail)
+            out.append({"what": f"cargo-vet crashed instead of refusing or skipping: {detail[:160]} (faults: {[f['kind'] for f in faults]})",
+                        "finding": fid})
+        locked = case.get("mode") == "locked"
+        used = lambda s: (not locked) if s == "SCriteriaMap" else (locked if s in ("SLockAudit", "SLockWildcard") else True)  # noqa
+        if c == "proceeds":
+            for f in faults:
+                if f["kind"] == "dangling" and used(f["site"]):
+                    out.append(f"a reference to an undefined criterion ({f['site']}) was not refused and reached the resolver")
+                if f["kind"] in ("table-cycle", "table-shadow"):
+                    out.append(f"an ill-formed criteria table ({f['kind']}) was accepted")
+        return out
+
+
 import hist  # noqa: E402
 
 
@@ -1496,7 +1626,7 @@ class C13(HistorySpec):
     assumptions = C09.assumptions
 
 
-REGISTRY = {c.pid: c for c in [C01, C02, C04, C05, C06, C07, C08, C09, C10, C11, C12, C13, C16, C17]}
+REGISTRY = {c.pid: c for c in [C01, C02, C04, C05, C06, C07, C08, C09, C10, C11, C12, C13, C15, C16, C17]}
 
 
 def get(pid):
